@@ -341,10 +341,12 @@ func (e *testEnv) instrument() *recorder {
 	store := &recStore{inner: p.sessionStore, rec: rec}
 	if e.mr != nil {
 		store.onClearFault = func(kind string) bool {
+			e.redisMu.Lock()
 			if e.redisFault == nil {
 				e.redisFault = map[string]string{}
 			}
 			e.redisFault["DEL"] = kind
+			e.redisMu.Unlock()
 			return true
 		}
 	}
